@@ -7,6 +7,7 @@ import MosnVerif.Lemmas.Relay
 import MosnVerif.Model.Http1Msg
 import MosnVerif.Lemmas.RelayStart
 import MosnVerif.Model.Http1Method
+import MosnVerif.Model.Http1Framing
 import MosnVerif.Lemmas.Reencode
 import MosnVerif.Model.ReencodeSpec
 /-!
@@ -663,5 +664,95 @@ example : Reencode.run .bare false pid [1, 0, 3] [] [⟨7, none, [.get (some 0) 
     = [[1, 7, 3], [1, 7, 3]] := by decide
 
 end Reencode
+
+/-! ## HTTP/1: message framing is hop-by-hop — the forwarded message is framed by the body that is sent
+
+`Model/Http1Framing.lean`.  Whether `clientStream.AppendHeaders` removes the received `Transfer-Encoding` before the header
+map is copied (`Gen.C01HttpFraming.dropsTransferEncoding`) and whether `serverStream.endStream` sets `SkipBody` for HEAD
+(`headSkipsBody`) are regenerated; fasthttp's `Request.Write` / `Response.Write` / `Response.ReadLimitBody` are modelled
+from the v1.40.0 source and validated on every `http1m q` / `http1m r` case. -/
+section Http1Framing
+open Http1Framing
+
+/-- a chunked message of which nothing has arrived is not complete, whatever the fuel -/
+theorem http1_dechunk_nil (fuel : Nat) : dechunk fuel [] = none := by
+  cases fuel <;> simp [dechunk, sizeLine]
+
+/-- **http1_request_transfer_encoding_dropped**: for every method class, every `endStream`, every received framing and
+every body, the request that is sent never carries the received `Transfer-Encoding` -/
+theorem http1_request_transfer_encoding_dropped (ignoreBody endStream : Bool) (f : Framing) (body : List UInt8) :
+    (forwardReq ignoreBody endStream f body).1.te = false := by
+  unfold forwardReq written copied
+  split <;> simp [Gen.C01HttpFraming.dropsTransferEncoding]
+
+/-- **http1_request_framing_complete**: for every method class (GET/HEAD or not), whatever `endStream` AppendHeaders was
+called with, every received framing (no framing header, `Content-Length`, `Transfer-Encoding: chunked`, also both) of a
+well-formed message (a Content-Length, if any, is the body's length) and every body (empty or not): the upstream, reading
+what the forwarded head announces out of the bytes that follow it, has a complete request with exactly that body. -/
+theorem http1_request_framing_complete (ignoreBody endStream : Bool) (f : Framing) (body : List UInt8)
+    (wf : f.cl = none ∨ f.cl = some body.length) :
+    recv (forwardReq ignoreBody endStream f body).1 (forwardReq ignoreBody endStream f body).2 = some body := by
+  unfold forwardReq written copied
+  split
+  · simp [recv]
+  · rename_i h
+    have hb : body = [] := by
+      cases body with
+      | nil => rfl
+      | cons a l => simp at h
+    subst hb
+    rcases wf with h | h <;> simp [recv, Gen.C01HttpFraming.dropsTransferEncoding, h]
+
+/-- **http1_request_framing_by_body**: whenever a body is sent, or the method is neither GET nor HEAD, the forwarded framing
+is `Content-Length: len(body)` and nothing else — a function of the body alone, whatever framing was received -/
+theorem http1_request_framing_by_body (ignoreBody endStream : Bool) (f : Framing) (body : List UInt8)
+    (h : body ≠ [] ∨ ignoreBody = false) :
+    forwardReq ignoreBody endStream f body = ({ te := false, cl := some body.length }, body) := by
+  unfold forwardReq written
+  rcases h with h | h <;> simp [h]
+
+example : (parsedReq "chunked0" 0).cl = none ∨ (parsedReq "chunked0" 0).cl = some ([] : List UInt8).length := by decide
+example : forwardReq true true (parsedReq "chunked0" 0) [] = ({ te := false, cl := none }, []) := by decide
+example : forwardReq true false (parsedReq "chunked" 2) [104, 105] = ({ te := false, cl := some 2 }, [104, 105]) := by decide
+example : forwardReq false true (parsedReq "chunked0" 0) [] = ({ te := false, cl := some 0 }, []) := by decide
+-- negation witness (the code before the repair copied the received Transfer-Encoding): a GET / HEAD framed chunked with an
+-- empty body is printed with `Transfer-Encoding: chunked` and nothing behind it; the upstream waits for a terminating chunk
+example : recv (forwardReqCopying true (parsedReq "chunked0" 0) []).1 (forwardReqCopying true (parsedReq "chunked0" 0) []).2 = none := by decide
+example : recv (forwardReqCopying false (parsedReq "chunked0" 0) []).1 (forwardReqCopying false (parsedReq "chunked0" 0) []).2 = some [] := by decide
+example : dechunk 9 [50, 13, 10, 104, 105, 13, 10, 48, 13, 10, 13, 10] = some [104, 105] := by decide
+
+/-- **http1_response_framing_complete_partial**: for every request method class (HEAD or not), every final status, every
+framing of the upstream's response and every body, PROVIDED the read of the upstream's response returns (`readHangs`
+false): a response is forwarded and the client, reading it by RFC 7230 3.3.3, has a complete response whose body is the
+upstream's (none for HEAD / 204 / 304).
+Full statement: the same without the hypothesis. It does not hold: fasthttp v1.40.0 `Response.ReadLimitBody` reads a
+trailer section whenever the head says chunked, also when the body is skipped (HEAD request, 204, 304) — KNOWN_FINDINGS. -/
+theorem http1_response_framing_complete_partial (head : Bool) (status : Nat) (f : RFraming) (body : List UInt8)
+    (hno : readHangs (head || noBodyStatus status) f = false) :
+    ∃ g w, forwardResp head status f body = some (g, w) ∧
+      recvResp head status g w = some (if head || noBodyStatus status then [] else body) := by
+  refine ⟨_, _, by simp only [forwardResp, hno]; rfl, ?_⟩
+  by_cases hs : (head || noBodyStatus status) = true
+  · simp [recvResp, hs]
+  · have hh : head = false := by cases head <;> simp_all
+    have hn : noBodyStatus status = false := by cases h : noBodyStatus status <;> simp_all
+    simp [recvResp, hh, hn]
+
+/-- **http1_bodiless_response_framing_kept**: the response to a HEAD request and a 204 / 304 response keep the framing
+headers the upstream sent (`Content-Length` of a HEAD response is representation metadata) and carry no body -/
+theorem http1_bodiless_response_framing_kept (head : Bool) (status : Nat) (f : RFraming) (body : List UInt8)
+    (hs : head = true ∨ noBodyStatus status = true) (hno : readHangs true f = false) :
+    forwardResp head status f body = some (f, []) := by
+  rcases hs with hs | hs <;> simp [forwardResp, writtenResp, hs, hno, Gen.C01HttpFraming.headSkipsBody]
+
+example : readHangs (false || noBodyStatus 200) (parsedResp 200 "chunked" 5) = false := by decide
+example : forwardResp false 200 (parsedResp 200 "chunked" 2) [104, 105] = some ({ te := .none, cl := some 2, close := false }, [104, 105]) := by decide
+example : forwardResp true 200 (parsedResp 200 "hcl" 0) [] = some ({ te := .none, cl := some 1234, close := false }, []) := by decide
+example : readHangs true (parsedResp 200 "hcl" 0) = false := by decide
+-- negation witnesses of the full statement: a HEAD response / a 304 that says `Transfer-Encoding: chunked` is never forwarded
+example : forwardResp true 200 (parsedResp 200 "hchunked" 0) [] = none := by decide
+example : forwardResp false 304 (parsedResp 304 "hchunked" 0) [] = none := by decide
+
+end Http1Framing
 
 end MosnVerif.Props.C01
